@@ -111,6 +111,12 @@ theorem C09_text_final_newline_optional (bs : Bytes) (hne : bs ≠ []) (hl : bs.
     Text.parse (bs ++ [10]) = Text.parse bs :=
   parse_snoc_lf bs hne hl
 
+/-- Robustness (used by C14): for every byte string the text reader returns `Ok` or `Err`; no
+program point of `parse_gcov` panics (lines read without any `file:` record are
+`Err(InvalidRecord)`). Outside the model: opening the file, and `from_utf8_unchecked` on non-UTF-8. -/
+theorem C09_text_never_panics (bs : Bytes) (site : String) : Text.parse bs ≠ .panic site :=
+  parse_ne_panic bs site
+
 /-! ## JSON form -/
 
 /-- Fidelity, JSON form: for every well-formed document (integer or float counters, optional keys
@@ -131,6 +137,15 @@ theorem C09_json_no_wrap :
     ∧ (∀ m k, U64MAX + 1 < m * 2 ^ k → Json.asCounter (.num (.flt false m (.ofNat k))) = none)
     ∧ (∀ n, Json.asCounter (.num (.neg n)) = none) :=
   ⟨JsonL.asCounter_le, JsonL.asCounter_float_above, JsonL.asCounter_negative⟩
+
+/-- Robustness (used by C14): for every JSON value tree, and when the gzip/JSON-text layer itself
+fails (`none`), `parse_gcov_gz` returns `Ok` or `Err`, never a panic; a tree that does not decode as
+a `GcovJson` is `Err(InvalidData)`. -/
+theorem C09_json_never_panics :
+    (∀ (r : Option Json) (site : String), Json.fromReader r ≠ .panic site)
+    ∧ (∀ (j : Json) (site : String), Json.toResults j ≠ .panic site)
+    ∧ (∀ j : Json, Json.decDoc j = none → Json.toResults j = .err "InvalidData") :=
+  ⟨JsonL.fromReader_ne_panic, JsonL.toResults_ne_panic, JsonL.toResults_err⟩
 
 /-- Line counts (the `lines` map of `semFile`): the count of the last entry of `lines` with that
 line number. -/
@@ -205,9 +220,10 @@ example : Text.parse [102, 105, 108, 101, 58, 97, 10, 108, 99, 111, 117, 110, 11
     52, 54, 55, 52, 52, 48, 55, 51, 55, 48, 57, 53, 53, 49, 54, 49, 54, 10] = .err "Parse" := by
   decide +kernel
 
-/-- robustness witness (belongs to C14): `lcount:1,1⏎` with no `file:` line panics the reader -/
-example : Text.parse [108, 99, 111, 117, 110, 116, 58, 49, 44, 49, 10]
-    = .panic "parse_gcov: cur_file.unwrap()" := by decide +kernel
+/-- former robustness defect (fixed in /repo 9e71186): `lcount:1,1⏎` with no `file:` line is an
+error, not a panic -/
+example : Text.parse [108, 99, 111, 117, 110, 116, 58, 49, 44, 49, 10] = .err "InvalidRecord" := by
+  decide +kernel
 
 def exDoc : Doc :=
   { formatVersion := [49], gccVersion := [57], cwd := some none, dataFile := [100]
@@ -231,8 +247,9 @@ example : Json.toResults exDoc.toJson
               functions := [([102, 40, 105, 110, 116, 44, 32, 99, 104, 97, 114, 41], ⟨3, true⟩)] })] := by
   decide +kernel
 
-/-- robustness witness (belongs to C14): a document without `files` panics the reader -/
-example : ∃ site, Json.toResults (.obj [(Json.kFormatVersion, .str [49])]) = .panic site :=
-  ⟨_, rfl⟩
+/-- former robustness defect (fixed in /repo 9e71186): a document without `files`, and a failure of
+the gzip/JSON-text layer, are `Err(InvalidData)`, not a panic -/
+example : Json.toResults (.obj [(Json.kFormatVersion, .str [49])]) = .err "InvalidData" := rfl
+example : Json.fromReader none = .err "InvalidData" := rfl
 
 end Grcov.Props.C09
